@@ -57,8 +57,8 @@ BUDGET = {
 }
 REQUIRED = dict(
     monitors=['prior-callback', 'loglike-equals-gaussian', 'callback-never-raises', 'invalid-never-finite',
-              'same-vector-same-value', 'sampled-space-order', 'ndim-handed-to-sampler'],
-    classes=['width-kind:3', 'bins:two-share-a-centre', 'callback-argument:one-buffer-refilled-in-place', 'callback-argument:fresh-per-point', 'sampler:nestle', 'sampler:multinest', 'sampler:polychord',
+              'same-vector-same-value', 'sampled-space-order', 'ndim-handed-to-sampler', 'nan-model-never-finite'],
+    classes=['width-kind:3', 'model:nan-in-every-bin-without-rejection', 'bins:two-share-a-centre', 'callback-argument:one-buffer-refilled-in-place', 'callback-argument:fresh-per-point', 'sampler:nestle', 'sampler:multinest', 'sampler:polychord',
              'prior:mode-linear', 'prior:mode-log', 'prior:Uniform', 'prior:LogUniform', 'prior:Gaussian',
              'prior:LogGaussian', 'cube:interior', 'cube:face', 'cube:corner',
              'invalid:chem>1', 'invalid:inverted-nodes', 'invalid:guillot',
@@ -350,6 +350,16 @@ def judge(ctx, sampler, spec, decls, layout, y, sigma, script, metas, call, obs)
         else:
             seen[key] = (rec['entry'], got, faults_so_far)
         if label == 'gray':
+            # between the valid range and a declared invalid zone nothing is known beforehand -- except this: when the
+            # atmosphere at this vector is accepted but its spectrum is NaN in EVERY bin, the Gaussian log-likelihood of
+            # that model is NaN, so the sampler must not be handed a finite number
+            shg = L.shadow_eval(spec, [(d['name'], L.to_value(d, t)) for d, t in zip(decls, theta) if d['comp'] != 'observation'])
+            if 'rejected' not in shg:
+                mg, totg = L.bin_ref(shg['wn'], shg['depth'], layout['c'], layout['w'])
+                if np.all(totg > 0) and not np.any(np.isfinite(mg)):
+                    ctx.observe('model:nan-in-every-bin-without-rejection')
+                    ctx.check('nan-model-never-finite', not np.isfinite(got), got=got, theta=theta, **base)
+                    continue
             ctx.event('domain-skip:between-valid-and-invalid-zone')
             continue
         sh = L.shadow_eval(spec, [(d['name'], L.to_value(d, t)) for d, t in zip(decls, theta) if d['comp'] != 'observation'],
